@@ -36,7 +36,7 @@ class Free:
 CORE = frozenset("""int float varint zigzag bytes gbytes pstr pascal cstr gstr flag enum flagsenum mapping const computed
  pass padding struct seq fseq array grange parray if ite switch rebuild default prefixed fixedsized padded aligned
  nullterm nullstrip check""".split())
-SEQUENTIAL = CORE | frozenset("""docs expr bint lamlen lazybound runtil select optional stopif bitwise bitstruct bytewise byteswapped bitsswapped xor rol
+SEQUENTIAL = CORE | frozenset("""docs expr bint lamlen lazybound offsettedend runtil select optional stopif bitwise bitstruct bytewise byteswapped bitsswapped xor rol
  compressed hex hexdump oneof noneof alignedstruct bomstr index terminated""".split())
 
 
@@ -343,6 +343,8 @@ def gen_group(draw, g):
         opts.append("stopif")
     if g.params and g.has("switch") and not g.ctxfree:
         opts += ["paramcond", "paramcond"]
+    if g.tail and g.has("offsettedend"):
+        opts += ["footer"]
     if g.ctxfree:
         opts = ["plain", "plain", "anon", "default", "nested"]
     if g.depth <= 0:
@@ -378,6 +380,13 @@ def gen_group(draw, g):
         g.ints.append((0, n, "int"))
         d = g.fresh("d")
         return [[n, lf], [d, gen_dependent(draw, g, gref(draw, g, 0, n, draw(st.sampled_from(["attr", "item"]))))]]
+    if o == "footer":
+        # a greedy body that stops short of a fixed-size footer at the end of the enclosing stream or region
+        k = draw(st.integers(0, 3))
+        body = draw(st.sampled_from([["gbytes"], ["grange", ["int", 1, False, "b", "alias"]], ["gstr", "utf8"]]))
+        if body[0] == "gstr" and not g.has("gstr"):
+            body = ["gbytes"]
+        return [[g.fresh("b"), ["offsettedend", -k, body]], [g.fresh("z"), ["bytes", k]]]
     if o == "derivedpair":
         # a member that build derives by itself (Default/Const/Computed given None) and a later member sized by it: the parent
         # must hand the BUILT value on, not the supplied None
@@ -839,6 +848,8 @@ def gen_value(draw, spec, sc, vp=None):
         return None
     if k == "pointer":
         return gen_value(draw, spec[2], sc)
+    if k == "offsettedend":
+        return V(draw, spec[2], sc, vp)
     if k == "oneof":
         return draw(st.sampled_from(spec[2]))
     if k in ("exprsym", "expradd", "exprvalid"):
